@@ -5,6 +5,7 @@
 -/
 import Mathlib.Data.Int.Bitwise
 import FqeVerif.Model.Bits
+import FqeVerif.Model.Strings
 namespace PyPrelude
 
 /-- `a & b` -/
@@ -31,5 +32,10 @@ def pyMax (a b : Int) : Int := if a ≥ b then a else b
 def pyBinCountOnes (a : Int) : Int := (Model.countBits a.natAbs : Nat)
 /-- `range(a, b)` as a list -/
 def pyRange (a b : Int) : List Int := (List.range (b - a).toNat).map (fun (k : Nat) => a + (k : Int))
+/-- `sum(f(m) for m in l)` -/
+def pySum (l : List Int) (f : Int → Int) : Int := l.foldl (fun acc m => acc + f m) 0
+/-- `scipy.special.binom(n, k)` on non-negative integers whose value is below 2^53 (the float it returns is then the
+    exact integer; the translated caller stores it into an int32 array).  ASSUMED, part of the trusted base. -/
+def pyBinom (n k : Int) : Int := (Model.binom n.toNat k.toNat : Nat)
 
 end PyPrelude
